@@ -16,7 +16,7 @@ from gvsim.lib import ACTIONS
 
 PROP = 'C20'
 TIERS = {'quick': {'runs': 1200, 'wall': 100}, 'thorough': {'runs': 30000, 'wall': 1500}}
-REACH = ['representation_switch', 'representation_switch_via_wrapper', 'wrapper_op', 'representation_switch_mid_episode', 'observation_area_off_bottom_centre']  # probes / faults that must fire in every batch (reach gaps are reported in the evidence)
+REACH = ['representation_switch', 'representation_switch_via_wrapper', 'wrapper_op', 'representation_switch_mid_episode', 'observation_area_off_bottom_centre', 'faithful_codes_checked', 'guided_step', 'door_opened_at_gym_layer']  # probes / faults that must fire in every batch (reach gaps are reported in the evidence)
 RULE = ('one run = 1-2 gym-level clients (every shipped configuration, built directly, through gym.make(id).unwrapped '
         'and through the registry spec\'s factory; with and without GymStateWrapper) under a seeded op list of reset / '
         'step(index) / representation switches at arbitrary points / space reads, interleaved with adversary noise on '
@@ -63,7 +63,8 @@ def generate(seed, run, tier):
         c = r.randrange(ncl)
         m = r.random()
         if m < 0.55:
-            ops.append([c, 'step', r.randrange(64)])
+            door_env = 'keydoor' in clients[c]['yaml']
+            ops.append([c, 'guided' if (door_env and r.random() < 0.6) else 'step', r.randrange(64)])
         elif m < 0.65:
             ops.append([c, 'reset'])
         elif m < 0.75:
@@ -205,6 +206,7 @@ class GymClient:
         self.inner.set_seed(spec['env_seed'])
         self.twin.set_seed(spec['env_seed'])
         self.S = self.O = None
+        self.codes = {}
         self.started = False
 
 
@@ -257,6 +259,8 @@ class Runner:
             if not ok:
                 self.violate('outside_advertised_space', where, 'observation_' + why, f'observation outside GymEnvironment.observation_space ({why}); representation {cl.orep_name}')
                 return False
+            if not self.faithful(cl, where, 'observation', cl.O, returned, cl.orep_name):
+                return False
         else:
             es = self.expect_state(cl)
             if es is None:
@@ -268,12 +272,58 @@ class Runner:
             if not ok:
                 self.violate('outside_advertised_space', where, 'wrapper_state_' + why, f'state outside GymStateWrapper.observation_space ({why}); representation {cl.srep_name}')
                 return False
+            if not self.faithful(cl, where, 'state', cl.S, returned, cl.srep_name):
+                return False
             if info is not None:
                 if 'observation' not in info or not arrays_equal(info['observation'], eo):
                     self.violate('wrapper_info_observation', where, cl.orep_name, "info['observation'] is not the observation representation")
                     return False
+                if not self.faithful(cl, where, 'observation', cl.O, info['observation'], cl.orep_name):
+                    return False
             self.ctx.probe('wrapper_op')
         cl.prev_eo = eo
+        return True
+
+    def faithful(self, cl, where, kind, obj, arrays, rep_name):
+        """the numeric view is a faithful encoding: within one representation the code of a cell is a function of the
+        object's (type, status, colour) that tells different objects apart (box contents are documented as not encoded),
+        and the agent marker sits on the agent's cell"""
+        if not isinstance(arrays, dict):
+            return True
+        from gvsim.lib import world_of
+
+        w = world_of(obj)
+        d2c, c2d = cl.codes.setdefault((kind, rep_name), ({}, {}))
+
+        def top(d):
+            return ('Box',) if d[0] == 'Box' else tuple(d)
+
+        pairs = []
+        g = arrays.get('grid')
+        if g is not None and np.ndim(g) == 3 and np.shape(g)[:2] == (w['h'], w['w']):
+            for y in range(w['h']):
+                for x in range(w['w']):
+                    pairs.append((top(w['cells'][y][x]), tuple(int(v) for v in g[y, x])))
+        it = arrays.get('item')
+        if it is not None and np.ndim(it) == 1:
+            pairs.append((top(w['agent'][3]), tuple(int(v) for v in it)))
+        for d, code in pairs:
+            if d2c.setdefault(d, code) != code:
+                self.violate('code_not_a_function_of_object', where, f'{kind}:{rep_name}', f'{d} encoded as {code} and earlier as {d2c[d]}')
+                return False
+            if c2d.setdefault(code, d) != d:
+                self.violate('different_objects_same_code', where, f'{kind}:{rep_name}', f'{d} and {c2d[code]} are both encoded as {code}')
+                return False
+        aid = arrays.get('agent_id_grid')
+        if aid is not None and np.shape(aid) == (w['h'], w['w']):
+            exp = np.zeros((w['h'], w['w']), dtype=int)
+            ay, ax = w['agent'][0], w['agent'][1]
+            if 0 <= ay < w['h'] and 0 <= ax < w['w']:
+                exp[ay, ax] = 1
+            if not np.array_equal(np.asarray(aid), exp):
+                self.violate('agent_marker_misplaced', where, f'{kind}:{rep_name}', f'agent_id_grid does not mark exactly the agent cell {(ay, ax)}')
+                return False
+        self.ctx.probe('faithful_codes_checked')
         return True
 
     # ---- ops
@@ -301,6 +351,21 @@ class Runner:
         self.ctx.state(state_key(S))
         self.ctx.log('reset', cl.idx, state_key(S))
         self.check_view(cl, 'reset', r)
+
+    def op_guided(self, cl, k):
+        """towards picking up the key, then opening the door (else a plain step)"""
+        if cl.started and k % 4:
+            from gvsim.lib import world_of
+            from gvsim.sim import guided_action
+
+            w = world_of(cl.S)
+            doors = [c for row in w['cells'] for c in row if c[0] == 'Door' and c[1] != 'OPEN']
+            if doors:
+                a = guided_action(w, 'facing', 'Door' if w['agent'][3][0] == 'Key' else 'Key', cl.actions)
+                if a is not None and a in cl.actions:
+                    self.ctx.probe('guided_step')
+                    return self.op_step(cl, cl.actions.index(a))
+        return self.op_step(cl, k)
 
     def op_step(self, cl, k):
         if not cl.started:
@@ -333,6 +398,8 @@ class Runner:
         self.ctx.state(state_key(cl.S))
         self.ctx.log('step', cl.idx, i, state_key(cl.S), repr(fr), bool(fd))
         self.ctx.probe('step')
+        if cl.actions[i] == 'ACTUATE' and any(c[0] == 'Door' and c[1] == 'OPEN' for row in state_key(cl.S)[2] for c in row):
+            self.ctx.probe('door_opened_at_gym_layer')
         if state_key(cl.inner.state) != state_key(cl.S):
             self.violate('index_to_action', 'step', cl.actions[i], f'step({i}) did not execute {cl.actions[i]}')
             return
